@@ -31,6 +31,8 @@ THEOREMS = [
     "multi_queue_demand_met", "process_full", "tracked_ids_distinct", "heartbeats_only_alive",
     "reports_alive_or_fresh", "dead_never_reported_again", "reports_are_own_workers",
     "unfixed_loop_refuted", "multi_queue_may_sit_below_min",
+    # Props/C14Shape.lean: the shape of the bookkeeping read from the source (translate/pool.py -> Gen/PoolShape.lean)
+    "code_prunes_the_dead_and_refills_unconditionally",
 ]
 
 RUNNER_KEYS = ("min_processes", "max_processes", "enforce_max_processes", "num_processes", "min_parallel_slots")
@@ -900,7 +902,9 @@ def shrink(app, task, meta: dict, steps: list[list], sig: str) -> list[list]:
 
 
 def run(ctx: Ctx) -> None:
-    lean_stage(ctx, None, THEOREMS)
+    from harness.translate import pool as trpool
+
+    lean_stage(ctx, trpool.gen, THEOREMS)
     drv = LeanDriver()
     ctx.cov["rule"] = (
         "scenario = (runner class, configuration, cpu count, backend, fault sequence); families: (A) for every pool of at most "
